@@ -140,6 +140,7 @@ def gen_program(rng, nlines, mode, count=None):
 
     lines = []
     handlers = {}
+    late_on = [None]
     for n, role in zip(nums, roles):
         if role == 'jump':
             segs = [b'GOTO ', R(by_role['setup'][0] if by_role.get('setup') else mains[0])]
@@ -160,22 +161,40 @@ def gen_program(rng, nlines, mode, count=None):
                     k = rng.choice([1, 2, 10])
                     use_key = rng.random() < 0.5
                     both = len(evs) > 1 or rng.random() < 0.5
+                    # 'late' (trap mode): the trap is DEFINED before the STOP but its event is OFF there (never switched on, or
+                    # switched on and off again); the first line after the STOP switches it ON, so RENUM sees a defined, disabled trap
+                    late = mode == 'trap' and rng.random() < 0.45
+                    if late:
+                        cnt('trap_defined_while_off')
                     if use_key or both:
                         segs += [b':' if segs else b'', b'ON KEY(%d) GOSUB ' % k, R(evs[0])]
                         cnt('ref_on_key')
                         if use_key:
-                            segs += [b':KEY(%d) ON' % k]
+                            on = b'KEY(%d) ON' % k
+                            if not late:
+                                segs += [b':' + on]
+                            else:
+                                if rng.random() < 0.4:
+                                    segs += [b':' + on + b':KEY(%d) OFF' % k]
+                                late_on[0] = on
                             handlers['key'] = (k, evs[0])
                     if not use_key or both:
                         segs += [b':' if segs else b'', b'ON TIMER(%d) GOSUB ' % rng.choice([1, 2]), R(evs[-1])]
                         cnt('ref_on_timer')
                         if not use_key:
-                            segs += [b':TIMER ON']
+                            if not late:
+                                segs += [b':TIMER ON']
+                            else:
+                                if rng.random() < 0.4:
+                                    segs += [b':TIMER ON:TIMER OFF']
+                                late_on[0] = b'TIMER ON'
                             handlers['timer'] = evs[-1]
                 if not segs:
                     segs = [b'REM setup']
         elif role == 'main':
             segs = [b'C=C+1:', tag()]
+            if late_on[0] and mode == 'trap' and n == mains[0]:
+                segs = [late_on[0] + b':'] + segs
             r = rng.random()
             others = [m for m in mains if m != n] or mains
             later = [m for m in mains if m > n] or [endline]
